@@ -130,7 +130,10 @@ def real_scn(f: dict) -> tuple[dict, list[bytes], list]:
         o["tmo"] = T_READ
     elif o["tmo"] > 0:
         o["tmo"] = T_QUERY
-    scn["tmo"] = T5S
+    silent = not scn["sched"] and o["name"] in ("query", "colors", "namever", "cellsize")
+    scn["tmo"] = T_READ if silent else T5S  # a silent terminal costs a whole timeout: 62.5 ms
+    if silent and o["tmo"] > 0:
+        o["tmo"] = T_READ + 64
     name = o["name"]
     reqs: list[bytes] = []
     if name == "query":
@@ -138,6 +141,7 @@ def real_scn(f: dict) -> tuple[dict, list[bytes], list]:
     elif name in K.QUERIES:
         reqs = [K.request_bytes(qs) for qs in K.QUERIES[name]]
     bursts = [[(b["delay"] / vtty.TICK_HZ, bytes(b["data"])) for b in s] for s in scn["sched"]]
+    bursts += [[] for _ in range(len(reqs) - len(bursts))]
     return scn, reqs, bursts
 
 
@@ -307,6 +311,13 @@ def judge(rep: Report, traces, owners) -> None:
             probes_ok += 1
             rep.extra["corrupted_trace_verdict"] = v["verdict"]
             continue
+        if v.get("late", "ok") != "ok":
+            rep.violation(
+                f"{t['op']['name']}:{v['late']}",
+                f"{t['mode']} run: the call returned but left work behind: started {t['final']['spawned']}, terminal "
+                f"accesses after the return {t['final']['late']}; mode {o.get('mode')}; fault {o.get('fault')}; word at entry "
+                f"{t['env']['attr0']}, when the call returned {t['final']['attr']}",
+                {k: o[k] for k in ("kind", "fault_line", "fault_kind", "scn", "fault") if k in o})
         if v["verdict"] == "ok":
             continue
         if v["verdict"].startswith("env:"):
@@ -395,8 +406,9 @@ def main(rep: Report, replay: dict | None) -> None:
             good += ok
             if ok and f["fired"]:
                 rep.distinct.add(("vtty", mode_key(f), json.dumps(f["attr0"]), json.dumps(f["fault"]), kind))
-            if ok and (i % (97 if quick else 13) == 0):
-                vsample.append((f, kind, run))
+            left = run["final"].get("spawned") or run["final"].get("late")
+            if (ok and (i % (97 if quick else 13) == 0)) or (left and sum(1 for x in vsample if x[3]) < 40):
+                vsample.append((f, kind, run, bool(left)))
     rep.traces_validated += good
     rep.extra["virtual_fault_replays"] = good
     kinds: dict[str, int] = {}
@@ -407,7 +419,7 @@ def main(rep: Report, replay: dict | None) -> None:
     for c in ("tcgetattr", "tcsetattr", "write", "tcdrain", "select", "read", "monotonic", "termsize", "ioctl", "more", "stream"):
         if not kinds.get(c):
             raise tlc.MachineryError(f"no behaviour of MC_TtyFault performs {c} (vacuous action)")
-    for f, kind, run in vsample:
+    for f, kind, run, _left in vsample:
         scn = scn_of(f)
         traces.append(K.make_trace("virtual", scn, run, c12=False, c13=True))
         owners.append({"kind": "vtty", "fault_line": f, "fault_kind": kind, "mode": mode_key(f),
